@@ -714,7 +714,7 @@ def h3_rule_analysis(rep, run, fields, what):
                          rules=run.meta[gid]["rules"], expected=wv, observed=rvn)
     return n
 
-def h3_tables_and_runs(rep, run, tables=True, runs=True):
+def h3_tables_and_runs(rep, run, tables=True, runs=True, value_kind=None):
     for gid in sorted(run.real):
         r = run.real[gid]; m = run.model.get(gid)
         if m is None: rep.tie_broken(f"correspondence H3: no model block for parser {gid}"); continue
@@ -726,6 +726,10 @@ def h3_tables_and_runs(rep, run, tables=True, runs=True):
             mrt = run.model_rt.get(gid)
             if mrt is None: rep.tie_broken(f"correspondence H3: no driver-mirror block for parser {gid}"); continue
             for j, (a, b) in enumerate(zip(r["inputs"], mrt["inputs"])):
+                if a != b and value_kind and (a["res"] != b["res"] or a["ctx"] != b["ctx"]) and "LOOP" not in (a["res"], b["res"]):
+                    ins = split_h3_inputs(run, gid)
+                    rep.fail(kind=value_kind, parser=gid, bytes=list(ins[j][1]) if j < len(ins) else None, flags=ins[j][0] if j < len(ins) else None, observed=a["res"][:200], expected=b["res"][:200],
+                             contextual_calls_observed=a["ctx"], contextual_calls_expected=b["ctx"], terms=[bytes(t["data"]).decode("latin1") for t in run.meta[gid]["terms"]]); break
                 if a != b: rep.tie_broken(f"correspondence H3/run: parser {gid} input {j}: result, context log or trace of the real driver differ from the driver mirror's (on the real tables and lexer automaton)"); break
 
 def h3_token_oracle(rep, run3, what):
@@ -1006,7 +1010,7 @@ def check_C02(rep):
     FX.run_fixed(rep, "values.cpp", "clang++", "-O1 -fsanitize=address,undefined -fno-sanitize-recover=all", "value-not-the-bottom-up-evaluation-of-the-derivation", run_prefix="ulimit -s unlimited;")
     run3 = h3_stage(rep)
     if run3 is not None:
-        h3_tables_and_runs(rep, run3, tables=False, runs=True)
+        h3_tables_and_runs(rep, run3, tables=False, runs=True, value_kind="value-or-functor-calls-differ-from-the-bottom-up-evaluation-on-the-real-tables")
         rep.notes["dsl_values_judged"] = h3_value_oracle(rep, run3)
     run = h1_stage(rep)
     if run is None: return rep
